@@ -1,11 +1,11 @@
-"""Record the local names of every function of /repo/discopy (in order of first binding) in sa/locals_table.json.
+"""Record the local names and the orientation of the == / != comparisons of every function of /repo/discopy (in order of first binding) in sa/locals_table.json.
 Run after confirming the checks on a tree: the table is the naming the rule modules refer to (see sa/alpha.py)."""
 import ast, json, os, sys
 VERIF = os.path.dirname(os.path.dirname(os.path.abspath(__file__)))
 sys.path.insert(0, VERIF)
 from sa import alpha
 root = sys.argv[1] if len(sys.argv) > 1 else "/repo/discopy"
-table = {}
+table, cmps = {}, {}
 for dp, dn, fns in os.walk(root):
     dn[:] = [d for d in dn if d != "__pycache__"]
     for f in sorted(fns):
@@ -17,5 +17,9 @@ for dp, dn, fns in os.walk(root):
             t = alpha.table_of(ast.parse(open(p).read()))
             if t:
                 table[name] = t
+            c = alpha.compare_table_of(ast.parse(open(p).read()))
+            if c:
+                cmps[name] = c
 json.dump(table, open(alpha.TABLE, "w"), indent=0, sort_keys=True)
+json.dump(cmps, open(alpha.CMP_TABLE, "w"), indent=0, sort_keys=True)
 print("%d modules, %d functions with locals" % (len(table), sum(len(v) for v in table.values())))
